@@ -53,6 +53,9 @@ def check_run(chk, cfg, lines, keep):
     case = {"cfg": cfg}
     chk.count(f"sampler:{cfg['sampler']}")
     chk.count(f"ns:{cfg['ns']}/{cfg['width']}")
+    if smcrun.collapsed_population(res):
+        chk.count("skipped:population_collapsed_rejected_by_library")
+        return
     if res["status"] != "done":
         chk.case(None, None)
         chk.fail("run total", case, repr(res.get("exc"))[:300], {"clause": "raise", "sampler": cfg["sampler"]})
